@@ -100,13 +100,7 @@ def run(prop, tier, seed):
         sc["single_fmt"] = "unified" if fm == "unified" else None
         combined.append(sc)
     for _ in range(nl2 // 5):
-        # one git stream that fills a directory and empties it: an added file, and the removal of the only file there so far
-        d_ = rng.choice(["nd", "nd/deep"])
-        sa = scen.section(rng, d_ + "/new.txt", kind="add", fmt="git")
-        sb = scen.section(rng, d_ + "/old.txt", kind="delete", fmt="git")
-        sx = scen.section(rng, "other", kind="change", fmt="git", nonl=False)
-        order = rng.choice([[sa, sb], [sb, sa], [sa, sx, sb], [sx, sa, sb]])
-        sc = scen.base_scenario(rng, order, opts={})
+        sc = scen.dir_stream_scenario(rng)
         sc["single_fmt"] = None
         combined.append(sc)
     # bytes above 0x7f in the text around the sections (names in mail headers and signatures)
